@@ -67,8 +67,35 @@ func (r *R) Str(f Fam, maxAtoms int) string {
 	n := r.Small(maxAtoms)
 	if r.Chance(1, 12) {
 		n = 0
+	} else if r.Chance(1, 16) {
+		// medium-sized texts (tens of bytes, dense in special characters) sit between the short and the boundary-sized ones
+		n = r.Range(8, 40)
 	}
-	return r.StrN(f, n)
+	s := r.StrN(f, n)
+	if r.Chance(1, 150) {
+		// occasionally a long text whose length sits at a buffer-size boundary
+		s = r.StrN(f, r.Intn(2)) + r.LongRun(f) + s
+	}
+	return s
+}
+
+var longLens = []int{255, 256, 257, 511, 512, 1023, 1024, 1025, 4093, 4094, 4095, 4096, 4097, 4100}
+
+// LongRun returns one atom of the families repeated up to a length (in bytes) next to a power of two.
+func (r *R) LongRun(f Fam) string {
+	fl := famList(f)
+	atom := "x"
+	if len(fl) > 0 && r.Chance(1, 3) {
+		atom = Pick(r, atoms[Pick(r, fl)])
+		if atom == "" || strings.Contains(atom, "\n") {
+			atom = "x"
+		}
+	}
+	target := Pick(r, longLens)
+	n := target / len(atom)
+	s := strings.Repeat(atom, n)
+	s += strings.Repeat("y", target-len(s))
+	return s
 }
 
 // StrN draws a string of exactly n atoms.
